@@ -92,6 +92,10 @@ func TestVerifC06(t *testing.T) {
 		for i := 0; i < nBases; i++ {
 			g.parserMutants(0)
 		}
+		nFr := envInt("VERIF_FRAMINGS", map[bool]int{true: 40, false: 4}[thorough])
+		for i := 0; i < nFr; i++ {
+			g.framingMutants(i == 0)
+		}
 		nHist := envInt("VERIF_HISTORIES", map[bool]int{true: 400, false: 40}[thorough])
 		for i := 0; i < nHist; i++ {
 			g.history(20+g.rnd.Intn(40), true)
